@@ -43,7 +43,7 @@ echo "$MAP" | while read c chk; do
       continue
     fi
   fi
-  /verif/check $chk --tier quick > /tmp/regress_$c.log 2>&1; E=$?
+  VERIF_EVIDENCE_DIR=/tmp/verif_scratch_evidence /verif/check $chk --tier quick > /tmp/regress_$c.log 2>&1; E=$?
   V=$(grep -c "^VIOLATION" /tmp/regress_$c.log)
   CLS=$(grep -h "^violation" /tmp/regress_$c.log | sed -e 's/.*class="\([^"]*\)".*/\1/' | sort -u | head -4 | tr '\n' ' ')
   git -C /repo checkout -q -- . ; git -C /repo reset -q --hard HEAD
